@@ -429,6 +429,56 @@ def blocked_scenarios(p):
     p.check_sentinels("blocked-scenarios")
 
 
+def connection_flood(p):
+    """More connections than the process may hold descriptors for. The descriptor limit is the
+    deployment's (commonly 1024 against a default maxclients of 10000); here it is lowered on
+    the running child to 160 through prlimit so that 400 sockets are enough. The listener then
+    fails with EMFILE: the server may refuse or delay the surplus, but it has to survive and
+    serve again once the flood is gone."""
+    import resource
+    import socket as _socket
+    res = p.res
+    for nconn, send in ((400, False), (400, True)):
+        res.evaluations += 1
+        old = resource.prlimit(p.srv.proc.pid, resource.RLIMIT_NOFILE)
+        socks = []
+        try:
+            resource.prlimit(p.srv.proc.pid, resource.RLIMIT_NOFILE, (160, old[1]))
+            for i in range(nconn):
+                try:
+                    s = _socket.create_connection(("127.0.0.1", p.srv.port), timeout=2)
+                    if send:
+                        s.sendall(b"*1\r\n$4\r\nPING\r\n")
+                    socks.append(s)
+                except OSError:
+                    break
+            time.sleep(0.5)
+        finally:
+            for s in socks:
+                try:
+                    s.close()
+                except OSError:
+                    pass
+            try:
+                resource.prlimit(p.srv.proc.pid, resource.RLIMIT_NOFILE, old)
+            except (ProcessLookupError, OSError):
+                pass
+        time.sleep(0.3)
+        res.cell("flood", "connections-beyond-fd-limit", "with-ping" if send else "silent")
+        res.count("flood_connections_opened", len(socks))
+        if not p.srv.alive():
+            err = p.srv.stderr_text()
+            res.violation("crash/connection-flood/%s" % first_ferrous_frame(err[-6000:]),
+                          "(%s build) server exited %s when %d clients connected while its descriptor limit was 160\n%s" % (
+                              p.profile, p.srv.exit_status(), len(socks), err[-1200:]))
+            p.restart()
+        elif not p.healthy():
+            res.violation("hang/connection-flood", "server stopped answering after a flood of %d connections beyond its descriptor limit was closed again" % len(socks))
+            p.srv.kill()
+            p.restart()
+    p.check_sentinels("connection-flood")
+
+
 def frame_fuzz(p, rng, n_random):
     res = p.res
     for label, data in FRAMES:
@@ -578,6 +628,8 @@ def worker(shard, binary, nshards, tier, seed, profile, extra_env=None):
             script_exhaustion(binary, res, known)
         if shard == 3 % nshards:
             blocked_scenarios(p)
+        if shard == 4 % nshards:
+            connection_flood(p)
     except SeedingFailed:
         pass
     finally:
